@@ -277,6 +277,11 @@ type J2TStateMachine struct {
 	SM              StateMachine
 	FieldCache      []int32
 	FieldValueCache FieldValue
+
+	// NOTICE: fields below are NOT visible to native code, they must stay after the native layout.
+	// retiredReqsCaches keeps superseded ReqsCache arenas alive: J2TStates of the struct levels which
+	// are still open hold raw pointers (hidden from GC in J2TExtra) into the arena they were allocated from.
+	retiredReqsCaches [][]byte
 }
 
 func (fsm *J2TStateMachine) String() string {
@@ -334,6 +339,10 @@ func FreeJ2TStateMachine(ret *J2TStateMachine) {
 	ret.KeyCache = ret.KeyCache[:0]
 	ret.FieldCache = ret.FieldCache[:0]
 	// ret.FieldValueCache = ret.FieldValueCache[:0]
+	for i := range ret.retiredReqsCaches {
+		ret.retiredReqsCaches[i] = nil
+	}
+	ret.retiredReqsCaches = ret.retiredReqsCaches[:0]
 	j2tStackPool.Put(ret)
 }
 
@@ -383,6 +392,8 @@ func (ret *J2TStateMachine) GrowReqCache(n int) {
 	c := cap(ret.ReqsCache) + n*resizeFactor
 	tmp := make([]byte, len(ret.ReqsCache), c)
 	copy(tmp, ret.ReqsCache)
+	// bitmaps of the open struct levels still live in the old arena, see retiredReqsCaches
+	ret.retiredReqsCaches = append(ret.retiredReqsCaches, ret.ReqsCache)
 	ret.ReqsCache = tmp
 }
 
